@@ -95,9 +95,12 @@ def run_shard(shard, rec):
         rec.notes.append("gfortran missing")
         return
     rng = random.Random(shard["seed"])
-    for _ in range(shard["count"]):
-        g = ftn.FGen(rng, two_types=rng.random() < 0.3)
+    for i in range(shard["count"]):
+        big = i % 8 == 7
+        g = ftn.FGen(rng, two_types=rng.random() < 0.3, max_ops=24 if big else 10)
         script = g.script()
+        if big:
+            rec.count("large_programs")
         ok = check_script(script, rec)
         nt = ok is True and (script["ncalls"] >= 2)
         rec.case(script, nontrivial=nt)
